@@ -436,6 +436,19 @@ class Runtime:
 
             opt.optimize_ir(m, should_fold=should_fold, **opts)
             out = m
+        elif api == "fold_pass_cb":
+            # a long-lived FoldConstantsPass that owns a caller-supplied should_fold callback vetoing one operator
+            from onnxscript.optimizer import _constant_folding as cf
+
+            veto = {"veto_add": "Add", "veto_mul": "Mul"}[op.get("answer", "veto_add")]
+            key = ("fold_pass_cb", veto)
+            if key not in self.long:
+                self.long[key] = cf.FoldConstantsPass(shape_inference=True, input_size_limit=cf.DEFAULT_CONSTANT_FOLD_INPUT_SIZE_LIMIT,
+                                                      output_size_limit=cf.DEFAULT_CONSTANT_FOLD_OUTPUT_SIZE_LIMIT,
+                                                      should_fold=lambda n, veto=veto: False if n.op_type == veto else None)
+            m = self._as_ir(mp)
+            r = self.long[key](m)
+            return {"model": self._serialize(r.model), "modified": str(bool(r.modified))}
         elif api == "positional":
             # options given positionally (num_iterations is the first one)
             out = opt.optimize(mp, *op.get("args", []))
